@@ -30,9 +30,15 @@ func (s *Struct) Build(gen Generator, ctx *MethodContext, sourceID *xtype.JenID,
 }
 
 func (s *Struct) Assign(gen Generator, ctx *MethodContext, assignTo *AssignTo, sourceID *xtype.JenID, source, target *xtype.Type, errPath ErrorPath) ([]jen.Code, *Error) {
-	additionalFieldSources, err := parseAutoMap(ctx, source)
-	if err != nil {
-		return nil, err
+	// autoMap is a field setting: like map and ignore it only applies to the
+	// target struct of the method it is defined on, not to nested structs.
+	var additionalFieldSources []xtype.FieldSources
+	if ctx.FieldsTarget == target.String {
+		var err *Error
+		additionalFieldSources, err = parseAutoMap(ctx, source)
+		if err != nil {
+			return nil, err
+		}
 	}
 
 	stmt := []jen.Code{}
